@@ -28,7 +28,7 @@ pub fn def() -> CheckDef {
 }
 
 fn info(tier: Tier) -> CheckInfo {
-    CheckInfo {
+    let mut ci = CheckInfo {
         id: "C05",
         level: "exploration",
         rule: format!(
@@ -40,7 +40,9 @@ fn info(tier: Tier) -> CheckInfo {
             "built like a release build (no overflow checks, no debug assertions)".into(),
             "the claim is the stated grammar neighbourhood, not all byte strings up to the MTU".into(),
         ],
-    }
+    };
+    ci.rule.push_str(" Added: hostile contents of the right bencode type (multi-byte / invalid UTF-8 at every byte alignment in every text field, non-curve keys, own id and address, zero ports, extreme integers, longest lists); every write-shaped datagram delivered to the live server a second time with a token it has just issued to the sender.");
+    ci
 }
 
 // ---------------------------------------------------------------------------------------------
